@@ -32,11 +32,15 @@
 (*      token when the receiver is completed (RootComplete.regs = 0, where *)
 (*      regs counts callbacks neither deregistered nor dequeued for        *)
 (*      execution), and no leaf observes a stop request afterwards.        *)
-(* IOEnv.PROP selects the rule set: "C10", "C11", "C04" or "ALL"(=C10+C11).*)
+(*  C20 (opt-in) async-stack bookkeeping is balanced: whenever the driving *)
+(*      thread is back in the harness (Quiescent, End) it has no current   *)
+(*      AsyncStackRoot (asr = 0), and no lost completion / leak (End).     *)
+(* IOEnv.PROP selects the rule set: "C10", "C11", "C04", "C20" or          *)
+(* "ALL" (= C10 + C11).                                                    *)
 (***************************************************************************)
 EXTENDS Integers, Sequences, FiniteSets, TLC, TraceIO
-\* "ALL" = C10 + C11 (the rule sets this engine is the oracle for); "C04" is opt-in only
-On(p) == IOEnv.PROP = p \/ (IOEnv.PROP = "ALL" /\ p # "C04")
+\* "ALL" = C10 + C11 (the rule sets this engine is the oracle for); "C04" and "C20" are opt-in only
+On(p) == IOEnv.PROP = p \/ (IOEnv.PROP = "ALL" /\ p \notin {"C04", "C20"})
 Fr == 0..5
 LeafIds == 0..12
 NONE == [ch |-> "none", p |-> <<>>]
@@ -211,12 +215,14 @@ QuiescentEv ==
   /\ Is("Quiescent")
   /\ On("C10") => /\ (started /\ E.pending = 0) => rootCount = 1          \* no lost completion
                   /\ (stopReq /\ E.ctxp = 0) => \A i \in LeafIds : (lrun[i] /\ lcb[i]) => i \in seen
+  /\ On("C20") => E.asr = 0
   /\ UNCHANGED <<started, rootCount, stopReq, fst, res, aw, mode, sch, locals, regs, gone, lrun, lch, lcb, seen, cbusy>>
 EndEv ==
   /\ Is("End")
   /\ On("C10") => /\ E.live = 0 /\ E.bad = 0 /\ E.heap = 0
                   /\ started => E.root = 1
                   /\ \A k \in Fr : fst[k] # "idle" => (gone[k] /\ locals[k] = {} /\ regs[k] = <<>>)
+  /\ On("C20") => (E.asr = 0 /\ E.live = 0 /\ E.heap = 0 /\ (started => E.root = 1))
   /\ UNCHANGED <<started, rootCount, stopReq, fst, res, aw, mode, sch, locals, regs, gone, lrun, lch, lcb, seen, cbusy>>
 Next == \/ Reset \/ Other \/ StartBegin \/ ExtStop \/ BodyEv \/ LocalCtor \/ LocalDtor \/ RegEv \/ CleanupBegin \/ CleanupEv \/ FrameGoneEv
         \/ AwaitEv \/ LeafStart \/ LeafStopSeen \/ LeafComplete \/ AwaitValue \/ AwaitThrew
